@@ -2,6 +2,7 @@ package seq
 
 import (
 	"fmt"
+	"math"
 
 	age "github.com/craterdog/go-collection-framework/v4/agent"
 	col "github.com/craterdog/go-collection-framework/v4/collection"
@@ -18,7 +19,19 @@ type cursor struct {
 }
 
 // itMove identifies one move: 0 GetNext, 1 GetPrevious, 2 ToStart, 3 ToEnd, 4+j ToSlot(-size-2+j)
-func moveCount(size int) int { return 4 + 2*size + 5 }
+// for j < 2*size+5, then ToSlot of the four extreme arguments.
+func moveCount(size int) int { return 4 + 2*size + 5 + len(extremeSlots) }
+
+var extremeSlots = []int{math.MinInt, math.MinInt + 1, math.MaxInt - 1, math.MaxInt}
+
+// slotArg decodes the argument of a ToSlot move.
+func slotArg(m, size int) int {
+	j := m - 4
+	if j < 2*size+5 {
+		return j - size - 2
+	}
+	return extremeSlots[j-(2*size+5)]
+}
 
 func moveName(m, size int) string {
 	switch m {
@@ -31,7 +44,7 @@ func moveName(m, size int) string {
 	case 3:
 		return "ToEnd"
 	}
-	return fmt.Sprintf("ToSlot(%d)", m-4-size-2)
+	return fmt.Sprintf("ToSlot(%d)", slotArg(m, size))
 }
 
 // applyMove performs the move on both and compares; returns a discrepancy.
@@ -65,7 +78,7 @@ func applyMove(it age.IteratorLike[int], cur *cursor, m int) string {
 		it.ToEnd()
 		cur.slot = n
 	default:
-		k := m - 4 - n - 2
+		k := slotArg(m, n)
 		it.ToSlot(k)
 		switch {
 		case k > n:
